@@ -1,9 +1,12 @@
 (* Canonical observation of an aggregator as a list of integers; the Python attribute walker
    (harness/impl.py) produces the same encoding from the real objects. *)
-From Coq Require Import ZArith List String Ascii Bool.
+From Coq Require Import ZArith List String Ascii Bool DecimalString.
 From Hgm Require Import NumOps Agg Ops.
 Import ListNotations.
 Local Open Scope Z_scope.
+
+(* str(i) of a Python int *)
+Definition z_str (z : Z) : string := NilZero.string_of_int (Z.to_int z).
 
 Section Snap.
   Context {N : num_ops}.
